@@ -131,8 +131,18 @@ def run(tier, seed):
     def req_case(ts):
         r = execrun.run_request(B, shim, xd, ts); r.pop('journal_text', None)
         return {'e': 'Req', 'tasks': ts, 'rc': r['rc'], 'res': r['tasks']}
+    # requests in which a later task carries a DUE (an absolute time): what counts is the time when ITS turn comes, not when the request
+    # was read - overdue by then: refused; otherwise killed at the DUE time (window: whole-second rounding of DUE, start-up of the tasks before)
+    def due_case(ts):
+        r = execrun.run_request(B, shim, xd, ts); r.pop('journal_text', None)
+        return {'e': 'ReqDue', 'tasks': [{'kind': t['kind'], 'lo': t.get('lo', 0), 'hi': t.get('hi', 0)} for t in ts], 'rc': r['rc'], 'res': r['tasks']}
+    dreqs = [[{'L': 0, 'W': 3, 'kind': 'finished'}, {'L': 0, 'W': 2, 'due': 2, 'kind': 'refused'}],
+             [{'L': 0, 'W': 3, 'kind': 'finished'}, {'L': 0, 'W': 10, 'due': 6, 'kind': 'killed', 'lo': 300, 'hi': 4500}],
+             [{'L': 0, 'W': 1, 'kind': 'finished'}, {'L': 0, 'W': 1, 'due': 30, 'kind': 'finished'}, {'L': 0, 'W': 9, 'due': 5, 'kind': 'killed', 'lo': 300, 'hi': 4500}]]
     with cf.ThreadPoolExecutor(max_workers=vlib.NCPU) as ex:
+        fut = [ex.submit(due_case, ts) for ts in dreqs]
         recs += list(ex.map(req_case, reqs))
+        recs += [f.result() for f in fut]
     # thorough: the whole path with the real binaries (user file -> echsq -> echsd -> echsx) in private namespaces, when available
     e2e_note = 'not run at this tier'
     if tier == 'thorough':
